@@ -346,6 +346,120 @@ def replay_case(run_case, record, restrict=('only_op', 'only_prog', 'only_hist',
     return [dict(v['record'], signature=sig) for sig, v in acc.violations.items()]
 
 
+class ChoiceDivergence(Exception):
+    pass
+
+
+class Choices(object):
+    """Choice oracle of the stateless (env mode) explorer: replays a prefix, then takes
+    alternative 0; records (choice, menu size, label) at every choice point."""
+
+    def __init__(self, prefix, labels=None):
+        self.prefix = list(prefix)
+        self.labels = labels
+        self.trace = []
+
+    def choose(self, n, label):
+        i = len(self.trace)
+        c = self.prefix[i] if i < len(self.prefix) else 0
+        if c >= n:
+            raise ChoiceDivergence('choice %d out of range %d at point %d (%s)' % (c, n, i, label))
+        if self.labels is not None and i < len(self.labels) and self.labels[i] != label:
+            raise ChoiceDivergence('replay diverged at point %d: %s != %s' % (i, label, self.labels[i]))
+        self.trace.append((c, n, label))
+        return c
+
+    @property
+    def schedule(self):
+        return [c for c, _, _ in self.trace]
+
+
+def explore_env(run, on_execution, first=None):
+    """Enumerate every schedule of environment answers of `run(choices)` (depth-first, stateless).
+
+    `run` executes the real code to completion, asking choices.choose(n, label) at each owned
+    seam. Every alternative at every choice point is explored; returns the number of executions."""
+    stack = [([], None)] if first is None else [(list(first), None)]
+    n_exec = 0
+    while stack:
+        prefix, labels = stack.pop()
+        ch = Choices(prefix, labels)
+        result = run(ch)
+        n_exec += 1
+        if len(ch.trace) < len(prefix):
+            raise ChoiceDivergence('execution consumed %d choices, prefix has %d' % (
+                len(ch.trace), len(prefix)))
+        on_execution(ch, result)
+        labs = [l for _, _, l in ch.trace]
+        for i in range(len(prefix), len(ch.trace)):
+            for alt in range(1, ch.trace[i][1]):
+                stack.append((ch.schedule[:i] + [alt], labs[:i]))
+    return n_exec
+
+
+def _expand_chunk(args):
+    fn, chunk = args
+    acc = Acc()
+    succ = []
+    for key, hist in chunk:
+        try:
+            succ.extend(fn(key, hist, acc))
+        except PhylibImportError:
+            raise
+        except Exception as e:
+            acc.violation('HARNESS/%s' % type(e).__name__, make_record(
+                '?', 'harness', 'HARNESS/%s' % type(e).__name__, trace=hist,
+                observed=traceback.format_exc()[-1500:]), len(hist))
+    return acc, succ
+
+
+def bfs(ctx, expand, roots, max_depth=None, sweep=None, chunk=64):
+    """Explicit-state breadth-first search, sharded per level.
+
+    `roots` is a list of (canonical key, history). `expand(key, history, acc)` (module-level)
+    rebuilds the real objects by replaying `history`, applies every enabled event, checks the
+    oracle on each (recording steps / violations in acc) and returns the successors as
+    (key, history) pairs; violating transitions must not be returned. The parent owns the seen
+    set, so a canonical state is expanded once, along the first (shortest) history reaching it.
+    Runs to a fixpoint unless max_depth is given. Returns (states, max depth reached, fixpoint?).
+    """
+    seen = set(k for k, _ in roots)
+    frontier = list(roots)
+    depth = 0
+    sub = Acc()
+    sub.states = len(seen)
+    fixpoint = False
+    while frontier:
+        if max_depth is not None and depth >= max_depth:
+            break
+        work = [(expand, c) for c in _chunks(frontier, chunk)]
+        nxt = []
+        if ctx.jobs > 1 and len(work) > 1:
+            results = ctx.pool().imap(_expand_chunk, work)
+        else:
+            results = (_expand_chunk(w) for w in work)
+        for acc, succ in results:
+            sub.merge(acc)
+            for key, hist in succ:
+                if key not in seen:
+                    seen.add(key)
+                    nxt.append((key, hist))
+                else:
+                    sub.extra['bfs_merged'] += 1
+        sub.states += len(nxt)
+        frontier = nxt
+        depth += 1
+    else:
+        fixpoint = True
+    if sweep:
+        ctx.sweeps[sweep] = {'cases': len(seen), 'states': len(seen), 'transitions': sub.transitions,
+                             'nontrivial': sub.nontrivial, 'depth': depth, 'fixpoint': fixpoint,
+                             'wall_s': round(time.time() - ctx.t0, 2)}
+    sub.states = len(seen)
+    ctx.acc.merge(sub)
+    return len(seen), depth, fixpoint
+
+
 # ---------------------------------------------------------------------------
 # known findings, replay files, evidence
 # ---------------------------------------------------------------------------
